@@ -173,6 +173,29 @@ def const_int(e):
     return None
 
 
+def bool_atom(cond):
+    """(atom, polarity): `cond` with `!x`, `x == true/false`, `x != true/false` peeled; cond is true exactly when atom == polarity."""
+    x, pol = strip(cond), True
+    for _ in range(6):
+        if x[0] == "un" and x[1] == "Not":
+            x, pol = strip(x[2]), not pol
+            continue
+        cm = comparison(x)
+        if cm and cm[0] in ("eq", "ne"):
+            done = False
+            for a, b in ((cm[1], cm[2]), (cm[2], cm[1])):
+                kb = strip(b)
+                if kb[0] == "const" and "bool" in kb[1]:
+                    same = bool(kb[1]["bool"]) == (cm[0] == "eq")
+                    x, pol = strip(a), (pol if same else not pol)
+                    done = True
+                    break
+            if done:
+                continue
+        break
+    return x, pol
+
+
 def bool_under(e, cond, value):
     """Truth value of the bool expression `e` given that `cond` evaluates to `value` (True / False / None = unknown).
     Handles constants, `!x`, and expressions structurally identical to the assumed condition (same call site for calls)."""
